@@ -107,7 +107,11 @@ func parseRace(rep string) (RaceReport, bool) {
 				if i+1 < len(lines) {
 					file = lines[i+1]
 				}
-				if strings.Contains(file, "zz_verif_") {
+				if strings.Contains(file, "zz_verif_") && strings.Contains(fn, ".VerifMirror") {
+					// a hook that repeats, statement for statement, the part of a production function that can run
+					// here (its beginning opens wallets on disk): its accesses are the production function's
+					sites = append(sites, strings.TrimPrefix(fn, vouchPrefix))
+				} else if strings.Contains(file, "zz_verif_") {
 					sites = append(sites, "") // hook files are harness code
 				} else {
 					sites = append(sites, strings.TrimPrefix(fn, vouchPrefix))
